@@ -82,7 +82,7 @@ patch("runtime/preempt.go", [
 # for flow control), and without this the fake clock would stop for good.
 patch("runtime/runtime2.go", [
     ("	valgrindStackID uintptr\n}",
-     "	valgrindStackID uintptr\n\n	// detrt: scheduling points passed by this goroutine at the virtual instant\n	// simNow of run simGen (spin guard: who is spinning?)\n	simSites uint32\n	simGen   uint32\n	simNow   int64\n}"),
+     "	valgrindStackID uintptr\n\n	// detrt: scheduling points passed by this goroutine at the virtual instant\n	// simNow of run simGen (spin guard: who is spinning?)\n	simSites uint32\n	simGen   uint32\n	simNow   int64\n	simChargeEnd int64\n}"),
     ("	waitReasonSyncCondWait:          true,\n	waitReasonSynctestWaitGroupWait: true,",
      "	waitReasonSyncCondWait:          true,\n	waitReasonSyncMutexLock:         true,\n	waitReasonSyncRWMutexRLock:      true,\n	waitReasonSyncRWMutexLock:       true,\n	waitReasonSyncWaitGroupWait:     true,\n	waitReasonSemacquire:            true,\n	waitReasonSynctestWaitGroupWait: true,"),
 ])
@@ -474,6 +474,18 @@ func simDeferrals() uint64 { return simsched.sdCount }
 // ends. Quiescence oracles must not judge while there is one: such a goroutine
 // is runnable work that was merely charged virtual time.
 //
+// simChargedUntil returns the bubble-clock instant at which the last sleep
+// that the spin guard charged to the calling goroutine ended (0: never).
+//
+//go:linkname simChargedUntil
+func simChargedUntil() int64 {
+	gp := getg()
+	if gp.simGen != simsched.pctGen {
+		return 0
+	}
+	return gp.simChargeEnd
+}
+
 //go:linkname simSpinSleepers
 func simSpinSleepers() (n int32, end int64) { return simsched.spinSleepers, simsched.spinEnd }
 
@@ -538,6 +550,9 @@ func simYield() {
 	// scheduling points at one virtual instant the current goroutine sleeps for
 	// a (doubling) virtual duration. Normal runs never get near the limit.
 	now := gp.bubble.now
+	if gp.simGen != simsched.pctGen {
+		gp.simChargeEnd = 0
+	}
 	if gp.simNow != now || gp.simGen != simsched.pctGen {
 		gp.simNow, gp.simGen, gp.simSites = now, simsched.pctGen, 0
 	}
@@ -579,15 +594,13 @@ func simYield() {
 				lv = 8 // 1 us << 24: about 17 virtual seconds per sleep
 			}
 			d := int64(1000) << (3 * lv)
-			// never sleep past the next timer of the bubble (a deadline, a
-			// network delivery ...): the spinner burns CPU until the next event,
-			// then looks again
-			if next := gp.bubble.timers.wakeTime(); next > now && next-now < d {
-				d = next - now
-				if d < 1000 {
-					d = 1000
-				}
-			}
+			// (Capping the sleep at the next timer of the bubble was tried and
+			// dropped: harness goroutines that poll with short sleeps keep the
+			// next timer microseconds away, the escalation never takes effect
+			// and a spin towards a deadline minutes away costs hours of CPU.
+			// Instead the goroutine remembers until when it was charged, and
+			// deadline oracles excuse exactly that.)
+			gp.simChargeEnd = now + d
 			simsched.spinEnd = now + d
 			simsched.spinSleepers++
 			timeSleep(d)
